@@ -7,6 +7,8 @@
         yamlrt      (C14: aux := import (ideal_rt (export root)); prints both digests)
         yamltree    (C14: prints the abstract YAML tree the model exports for root)
         yamlinto    (C14: aux := import_document (ideal_rt (export root)) aux, aux may hold a tree)
+        hset K | hlook K | hget K | hdel K | hreset     (C13: coq/PropTree/HashModel.v, h_step with h := crc32c, on a
+                    separate table state; prints  <found 1/0> H:<size>,<count>|<bucket>:<hexkey>,...;...)
    The conversions below (int <-> extracted N / Z / nat, hex) are trusted glue. *)
 open MODELS
 let rec pos_of_int n = if n = 1 then XH else if n land 1 = 0 then XO (pos_of_int (n lsr 1)) else XI (pos_of_int (n lsr 1))
@@ -40,8 +42,13 @@ let rec ydigest (y : ynode) : string =
   | YScalar (v, st) -> "s" ^ style st ^ hex v
   | YMapping kv -> "m{" ^ String.concat ";" (List.map (fun (k, v) -> ydigest k ^ "=" ^ ydigest v) kv) ^ "}"
   | YSequence l -> "q[" ^ String.concat ";" (List.map ydigest l) ^ "]"
+let hdump ((t, c) : hstate) : string =
+  let parts = List.filter (fun x -> x <> "") (List.mapi (fun i ch ->
+      if ch = [] then "" else Printf.sprintf "%d:%s" i (String.concat "," (List.map hex ch))) t) in
+  Printf.sprintf "H:%d,%d|%s" (List.length t) (int_of_nat c) (String.concat ";" parts)
 let () =
   let st = ref init_state in
+  let hst = ref h_empty in
   try
     while true do
       let line = input_line stdin in
@@ -49,6 +56,13 @@ let () =
       match w with
       | [] -> ()
       | ["reset"] -> st := init_state; print_string "RESET\n"
+      | ["hreset"] -> hst := h_empty; print_string "HRESET\n"
+      | [("hset" | "hlook" | "hget" | "hdel") as o; k] ->
+        let k = unhex k in
+        let op = (match o with "hset" -> HSet k | "hlook" -> HLook k | "hget" -> HGet k | _ -> HDel k) in
+        let (s', found) = h_step crc32c !hst op in
+        hst := s';
+        Printf.printf "%d %s\n" (if found then 1 else 0) (hdump s')
       | ["yamlrt"] | ["yamlrtf"] ->
         let y = yaml_export !st.st_root in
         let (r, ok) = yaml_import (yaml_rt_ideal y) NNull in
